@@ -288,7 +288,7 @@ func (w *gcWorld) publishAll(pb *gcPublisher) {
 		var recs []*gcPubRec
 		var ids []string
 		for k, m := range batch {
-			rec := &gcPubRec{pub: pb.id, idx: i + k, uuid: m.UUID, topic: pb.topic, orig: m, snap: m.Copy(), nestedBy: -1}
+			rec := &gcPubRec{pub: pb.id, idx: i + k, uuid: m.UUID, topic: pb.topic, orig: m, snap: SnapMsg(m), nestedBy: -1}
 			w.recs = append(w.recs, rec)
 			recs = append(recs, rec)
 			ids = append(ids, m.UUID)
@@ -473,7 +473,7 @@ func (w *gcWorld) nestedPublish(s *gcSub, m *message.Message) {
 	}
 	w.nested++
 	nm := message.NewMessage(fmt.Sprintf("%s/nested%d-by-sub%d", other, w.nested, s.id), []byte("nested"))
-	rec := &gcPubRec{pub: -1, idx: w.nested, uuid: nm.UUID, topic: other, orig: nm, snap: nm.Copy(), nestedBy: s.id}
+	rec := &gcPubRec{pub: -1, idx: w.nested, uuid: nm.UUID, topic: other, orig: nm, snap: SnapMsg(nm), nestedBy: s.id}
 	w.recs = append(w.recs, rec)
 	w.r.Fault("consumer-publishes-before-ack")
 	rec.invEv = w.tick()
